@@ -290,6 +290,68 @@ func TestC14_Prefixes(t *testing.T) {
 	}
 }
 
+// TestC14_Structural: for one generated value of every message type (several per type in the
+// thorough tier) EVERY structural field the independent encoder writes (extension bits, lengths,
+// counts, indices, bitmap bits, constrained numbers) is altered in turn: set to its maximum, to
+// zero, and — for general length determinants — replaced by runs of 16K-fragment headers that
+// claim k x 64K items in k+1 octets. Sampling one field per case (TestC14_Total) reaches a given
+// length field of a given message type only rarely; this sweep reaches all of them every run.
+func TestC14_Structural(t *testing.T) {
+	r := ev.New(t, "C14", "TestC14_Structural")
+	defer r.Flush()
+	ms := gen.Messages()
+	reps := 4
+	if ev.Tier() == "thorough" {
+		reps = 24
+	}
+	for rep := 0; rep < reps; rep++ {
+		for mi, m := range ms {
+			if (mi+rep)%ev.NShards() != ev.Shard() {
+				continue
+			}
+			m := m
+			pdu := rapid.Custom(func(rt *rapid.T) ngapType.NGAPPDU {
+				return gen.New(rt, gen.Opts{Budget: 120, BigString: 40}).PDU(m)
+			}).Example(int(ev.BaseSeed()%1000003)*31 + 104729*rep + mi)
+			_, w, err := refper.Encode(pdu, gen.PDUTag)
+			if err != nil || w.Opps > 1200 {
+				continue
+			}
+			n := countIEs(pdu)
+			for at := 0; at < w.Opps; at++ {
+				for _, variant := range []int{1, 2, 16, 19} {
+					hb, hit, _, err := refper.EncodeFault(pdu, gen.PDUTag, at, variant)
+					if err != nil || hit == "" {
+						continue
+					}
+					if variant >= 15 && !strings.HasPrefix(hit, "len/fragment-run") {
+						continue // same alteration as variant%5 for fields that are not general lengths
+					}
+					if len(hb) > 4096 {
+						hb = hb[:4096]
+					}
+					f := hit
+					if i := strings.IndexByte(f, '/'); i > 0 {
+						f = f[:i]
+					}
+					if strings.HasPrefix(hit, "len/fragment-run") {
+						f = "len-fragment-run"
+					}
+					c := c14Case{Kind: "structured-fault", Entry: "PDU/" + m.Name, Fault: hit, Hex: hex.EncodeToString(hb)}
+					v := ev.Verdict{NT: n >= 1, Hash: ev.HashBytes(hb), Classes: []string{"sweep-fault:" + f}}
+					v.Key, v.Err = decodeTotal(r, c, hb)
+					if v.Key != "" {
+						v.Key = "dec:" + v.Key
+					}
+					if !r.Each(t, c, v) {
+						return
+					}
+				}
+			}
+		}
+	}
+}
+
 // TestC14_Corpus replays every saved input under /verif/corpus/C14 (crashers found earlier,
 // hostile constants) — the seconds-long replay tier.
 func TestC14_Corpus(t *testing.T) {
